@@ -1,54 +1,70 @@
 """C09 -- J2 plasticity update: isochoric, irreversible, consistently wired (structural clauses).
 
-  D1  isochoric: the flow direction is traceless on both outcomes of its degeneracy switch (interpreted on a
-      generic symbolic strain); the state increment returned by update_state / compute_state_increment has a
-      traceless tensor segment on every path; in finite deformations the new distortion is
-      exp_symm(increment segment) @ old distortion (frames checked: rules/frames.py) so det is preserved
-      (det exp A = exp tr A); the state vector layout (EQPS, PLASTIC_DISTORTION, NUM_STATE_VARS) agrees
-      between initial states, increments and updates;
-  D2  irreversible: the bracket handed to the root finder starts at the old equivalent plastic strain and its
-      width is (trial Mises stress - current flow stress)/(3 mu), the very quantity whose positivity is the yield
-      test; the new value is old + increment and the elastic branch adds zero;
-  D3  variational wiring: the residual is d(incremental_potential)/d(eqps) (jacfwd argnum = position of eqps)
-      and the root-finding lambda varies that position; for each kinematics option the strain measure of the
-      energy closure is the one used inside the selected state-update function.
-Not decided: yield consistency to tolerance, minimality, idempotence and commit-invariance as numbers;
-the size of the degeneracy tolerance in compute_flow_direction.
+Every obligation is an identity / sign statement about *values* obtained by interpreting the public model interface
+(rules/C09_sym.py: the factory `create_material_model_functions` and the closures it returns, for every kinematics option
+the factory itself distinguishes) on symbolic inputs, on every feasible path (both outcomes of every comparison the
+interpreter cannot decide).  The scalar solve is a recorder that returns a symbolic root; spectral tensor functions of
+non-diagonal arguments are opaque symmetric matrices interned on their argument.  No statement shape, local name, helper
+name or idiom is looked at; the slots of the state vector are found by use (the slot that receives the root is the
+equivalent plastic strain).
+
+  D1  isochoric: on every path of every kinematics option the plastic increment is traceless: for an additive update
+      new - old (tensor segment), for a multiplicative update the argument A of the matrix exponential in
+      new = exp(A) @ old (det exp A = exp tr A; frames: rules/frames.py); the virgin state has zero equivalent plastic
+      strain and distortion identity (multiplicative) resp. zero plastic strain (additive); the exponential's argument is
+      the plastic increment the additive update applies for the same trial strain; the state layout constants agree with
+      the roles found by use; the dummy flow direction used below the degeneracy threshold cannot be reached while yielding;
+  D2  irreversible: on every yielding path the bracket handed to the root finder starts at the old equivalent plastic
+      strain, the new value is the root, the elastic paths leave the state unchanged; the quantity whose positivity is
+      the yield test is minus the residual at the old state up to a non-negative offset (so yielding => residual(lower
+      end) < 0), and the residual is strictly positive at the upper end (root-finder contract), for H > 0, H = 0, with
+      and without rate sensitivity;
+  D3  variational wiring: the residual handed to the root finder is d/d(eqps) of the energy density the model exposes,
+      evaluated at the updated state (stationarity of the incremental potential); for additive kinematics and
+      rate-independent hardening the energy is the same before and after the update is committed; for each kinematics
+      option the energy closure and the state update solve the same scalar equation on the same bracket (same trial
+      elastic strain).
+Not decided: yield consistency to tolerance, minimality (second-order condition), idempotence as numbers; commit
+invariance for the multiplicative update (needs log(exp(A) B) identities); the size of the degeneracy tolerance.
 """
 from __future__ import annotations
 
-import ast
+import math
+from fractions import Fraction
 
-from optilint.cfg import cfg_of
-from optilint.model import dotted, FuncVal, ExtVal
 from optilint.core import Incomplete
-from optilint.tensoreval import (Dual, Arr, EvalError, Raised, _A, rat_is_zero, rat_sign, Closure, PosVec, Deriv, sum_d)
+from optilint import tensoreval as te
+from optilint.tensoreval import Dual, Arr, EvalError, Raised, _A, rat_is_zero, rat_sign, rat_const, matmul, ONE
 from optilint.expr import simplify
-from .common import src, same, calls_in, const_value
 from . import materials as mt
 from . import frames
-from .tensorid import generic
+from . import C09_sym as sym
+from .C09_sym import (Harness, explore, atom, generic, generic_sym, ident3, zeros3, trace3, sub3, dev3, ddot, d_equal, arr_equal,
+                      all_atoms, short, family_matrix, FAMILIES, INTERP_ERRORS, J2, HARD)
 
 LEVEL = "other"
-RULE_TEXT = ("obligations = (function x comparison outcome: trace of flow direction / increment segment is 0) + (state layout slot) + "
-             "(root-finder bracket role) + (derivative argnum / lambda slot) + (kinematics option x strain function pairing)")
-EXPLANATION = ("Abstract interpretation of J2Plastic on generic symbolic tensors (exact rational entries, both outcomes of every "
-               "undecidable comparison) for tracelessness and state layout; role analysis of the root-finder bracket; slot agreement of "
-               "the incremental-potential derivative; per-option pairing of strain measure and state update; frame typing of the "
-               "finite-deformation update. Numerical accuracy of the return mapping is not decided.")
-
-J2 = "optimism.material.J2Plastic"
+RULE_TEXT = ("obligations = (kinematics option x feasible path: trace of the plastic increment is 0) + (option: state slot roles, virgin state, "
+             "update structure) + (yielding path: root-finder bracket roles and signs) + (case: residual = d energy / d eqps; commit invariance) + "
+             "(option: energy closure and state update solve the same equation) + (option scenario: dimensional homogeneity)")
+EXPLANATION = ("Abstract interpretation of the J2 model through its factory and returned closures on generic symbolic tensors (exact rational "
+               "entries, all feasible paths, recording root finder, interned opaque spectral functions): tracelessness of the plastic increment, "
+               "state layout by use, bracket roles and residual signs, stationarity of the exposed energy, commit invariance, agreement of the "
+               "scalar equation between energy and state update per kinematics option; frame typing of the finite-deformation update; "
+               "dimensional homogeneity by unit scaling. Numerical accuracy of the return mapping is not decided.")
 
 
 def run(ctx):
     ctx.need_module(J2)
-    ctx.need_module("optimism.material.Hardening")
-    ctx.guard(d1_traceless, ctx)
-    ctx.guard(d1_degenerate_threshold, ctx)
-    ctx.guard(d1_layout, ctx)
-    ctx.guard(d2_bracket, ctx)
-    ctx.guard(d3_wiring, ctx)
-    ctx.guard(d3_dispatch, ctx)
+    ctx.need_module(HARD)
+    h = ctx.guard(Harness, ctx)
+    if h is not None:
+        for fn in (d1_traceless, d1_degenerate_threshold, d1_layout, d2_bracket, d3_wiring, d3_dispatch):
+            ctx.guard(_rule, ctx, h, fn)
+        # the functions the interpreter went through are analysed functions (the thorough tier alpha-renames each of them)
+        for q in sorted(h.visited):
+            s = ctx.repo.find(q)
+            if s is not None and "<" not in q:
+                ctx.touch(s)
     from . import units
     ctx.guard(units.run, ctx, "D3/T8-dimensional-homogeneity", {J2}, min_scenarios=8)
     ctx.guard(frames.run_frames_state_only, ctx, "D1/T9-frames", [f"{J2}:compute_state_new_finite_deformations"])
@@ -58,241 +74,466 @@ def run(ctx):
     ctx.assume("shear modulus > 0; the root returned by find_root lies in the bracket it is given (C17)")
 
 
-def _interp(ctx, policy=None):
-    I = mt.make_interp(ctx.repo)
-    I.policy = policy
-    rec = {}
-
-    def find_root(interp, args, kw):
-        rec["args"] = args
-        interp.positive.add("eqpsRoot")
-        return (Dual(_A.atom("eqpsRoot")), None)
-    I.special["optimism.ScalarRootFind:find_root"] = find_root
-    I.special["optimism.ScalarRootFind:get_settings"] = lambda interp, args, kw: None
-    return I, rec
+def _rule(ctx, h, fn):
+    try:
+        return fn(ctx, h)
+    except (EvalError, Raised, ZeroDivisionError, RecursionError, Incomplete) as ex:
+        ctx.undecided(fn.RULE, h.fscope, None, construct=f"{fn.__name__}: not interpretable", detail=str(ex)[:300])
 
 
-def _hardening(ctx, I):
-    mod = ctx.need_module("optimism.material.Hardening")
-    props = mt.PropDict(I, {"hardening model": "linear"}, {"hardening model", "rate sensitivity"})
-    return I.call(I.module_value(mod, "create_hardening_model"), [props], {})
+def _kname(kin):
+    return kin if kin is not None else "default"
 
 
-def _trace(M):
-    return M.data[0] + M.data[4] + M.data[8]
+# ------------------------------------------------------------------ shared semantic facts
+
+def _yielding(h, kin, run, old_eqps):
+    """A path is a yielding path when the state update stores the root of the scalar solve in the equivalent-plastic-strain slot."""
+    e, _ = h.split_state(kin, run.value)
+    return Harness.ROOT in all_atoms(e)
 
 
-def d1_traceless(ctx):
-    rule = "D1/T9-traceless-flow"
-    mod = ctx.need_module(J2)
-    fd = ctx.need(f"{J2}:compute_flow_direction")
-    for pol in (True, False):
-        I, _ = _interp(ctx, pol)
-        try:
-            N = I.call(I.module_value(mod, "compute_flow_direction"), [generic("e")], {})
-            tr = _trace(N)
-            ok = rat_is_zero(tr.a)
-        except (EvalError, Raised, KeyError, IndexError, TypeError) as ex:
-            ctx.undecided(rule, fd, None, construct=f"flow-direction[nonzero={pol}]", detail=str(ex))
+def _update_kind(h, kin):
+    """'multiplicative' when the new tensor segment is built from a matrix exponential (a spectral call whose scalar function maps
+    the probe z to exp[z]) of the plastic increment; 'additive' when no exponential is involved.  Returns (kind, facts)."""
+    cache = h.__dict__.setdefault("_kind_cache", {})
+    if kin in cache:
+        return cache[kin]
+    sc = h.scenario(kin)
+    s_init = h.initial_state(sc)
+    _, T0 = h.split_state(kin, s_init)
+    state = h.make_state(kin, atom("s0"), T0)
+    kind = None
+    for p in h.paths(sc, "compute_state_new", [family_matrix("shear"), state, atom("dt")]):
+        if p.error is not None:
+            raise EvalError(f"state update ({_kname(kin)}) not interpretable: {p.error}")
+        if not _yielding(h, kin, p.value, atom("s0")):
             continue
-        ctx.decide(rule, ok, fd, None, construct=f"flow-direction[degenerate-switch={'regular' if pol else 'fallback'}]",
-                   detail="trace of the flow direction is identically 0 for a generic strain",
-                   bad_detail=f"flow direction has trace {tr.a!r} ({'regular branch' if pol else 'fallback matrix'}): plastic flow would change volume")
-    # increments on every path
-    us = ctx.need(f"{J2}:update_state")
-    ci = ctx.need(f"{J2}:compute_state_increment")
-    for fname, sc in (("update_state", us), ("compute_state_increment", ci)):
-        for pol in (True, False):
-            I, rec = _interp(ctx, pol)
-            try:
-                hm = _hardening(ctx, I)
-                state = Arr([Dual(_A.atom(f"s{k}")) for k in range(10)], (10,))
-                props = PosVec("p", I)
-                dt = Dual(_A.atom("dt"))
-                I.positive.add("dt")
-                inc = I.call(I.module_value(mod, fname), [generic("e"), state, dt, props, hm], {})
-                seg = I.getitem(inc, I.module_value(mod, "PLASTIC_DISTORTION")).reshape((3, 3))
-                tr = _trace(seg)
-                ok = rat_is_zero(tr.a)
-                n = inc.shape[0]
-            except (EvalError, Raised, KeyError, IndexError, TypeError, AttributeError) as ex:
-                ctx.undecided(rule, sc, None, construct=f"{fname}[comparisons={pol}]", detail=str(ex))
+        _, Tn = h.split_state(kin, p.value.value)
+        exps = [(A, R) for (A, sig, R) in p.value.spectral if "exp[@z]" in sig and (all_atoms(R) & all_atoms(Tn)) - {"s0", "t", "q"}]
+        k = "multiplicative" if exps else "additive"
+        if kind is not None and k != kind:
+            raise EvalError("update is multiplicative on one yielding path and additive on another")
+        kind = k
+    if kind is None:
+        raise EvalError(f"no yielding path found for kinematics {_kname(kin)}")
+    cache[kin] = kind
+    return kind
+
+
+def _increment(h, kin, run, T_old):
+    """(kind, plastic increment tensor) of one run of the state update: new - old (additive) or the argument of the matrix
+    exponential whose result multiplies the old distortion (multiplicative); the exponential's result is returned as third item."""
+    kind = _update_kind(h, kin)
+    _, Tn = h.split_state(kin, run.value)
+    if kind == "additive":
+        return kind, sub3(Tn, T_old), None
+    cands = [(A, R) for (A, sig, R) in run.spectral if "exp[@z]" in sig]
+    used = [(A, R) for (A, R) in cands if (all_atoms(R) - all_atoms(A) - all_atoms(T_old)) & all_atoms(Tn)] or \
+           [(A, R) for (A, R) in cands if arr_equal(matmul(R, T_old), Tn)]
+    if not used:
+        if arr_equal(Tn, T_old):
+            return kind, zeros3(), ident3()         # no plastic flow on this path
+        raise EvalError("the matrix exponential entering the new distortion was not identified")
+    if len(used) > 1:
+        raise EvalError("several matrix exponentials enter the new distortion")
+    return kind, used[0][0], used[0][1]
+
+
+# ------------------------------------------------------------------ D1
+
+def d1_traceless(ctx, h):
+    rule = d1_traceless.RULE
+    dt = atom("dt")
+    for kin in h.kinematics():
+        sc = h.scenario(kin)
+        try:
+            kind = _update_kind(h, kin)
+            _, T0 = h.split_state(kin, h.initial_state(sc))
+            # additive: generic symmetric plastic strain; multiplicative: the virgin distortion (the general one is used in the layout rule)
+            T_old = generic_sym("p") if kind == "additive" else T0
+            state = h.make_state(kin, atom("s0"), T_old)
+            paths = h.paths(sc, "compute_state_new", [generic("h"), state, dt])
+        except INTERP_ERRORS as ex:
+            ctx.undecided(rule, h.fscope, None, construct=f"{_kname(kin)}:plastic-increment-traceless", detail=str(ex)[:300])
+            continue
+        for p in paths:
+            cons = f"kinematics={_kname(kin)}[path {p.label()}]:plastic-increment-traceless"
+            if p.error is not None:
+                ctx.undecided(rule, h.fscope, None, construct=cons, detail=str(p.error)[:300])
                 continue
-            ctx.decide(rule, ok and n == 10, sc, None, construct=f"{fname}[comparisons={pol}]:increment-segment-traceless",
-                       detail=f"increment vector of length {n}; trace of its tensor segment is identically 0",
-                       bad_detail=f"{fname}: tensor segment of the state increment has trace {tr.a!r} (length {n}): the plastic distortion would not stay volume preserving")
+            try:
+                _, A, _ = _increment(h, kin, p.value, T_old)
+                tr = trace3(A)
+                yielding = _yielding(h, kin, p.value, atom("s0"))
+            except INTERP_ERRORS as ex:
+                ctx.undecided(rule, h.fscope, None, construct=cons, detail=str(ex)[:300])
+                continue
+            what = "new - old plastic strain" if kind == "additive" else "argument of the matrix exponential multiplying the old distortion"
+            ctx.decide(rule, rat_is_zero(_A.norm(simplify(tr.a))), h.fscope, None, construct=cons,
+                       detail=f"{kind} update, {'yielding' if yielding else 'elastic'} path: trace of the plastic increment ({what}) is identically 0",
+                       bad_detail=f"kinematics={_kname(kin)}, {'yielding' if yielding else 'elastic'} path: the plastic increment ({what}) has trace {short(tr)}: "
+                                  f"the plastic flow changes volume (det of the plastic distortion / trace of the plastic strain is not preserved)")
+    # the flow direction function, when the module still exposes one under its public name (both outcomes of its switch)
+    fd = ctx.repo.find(f"{J2}:compute_flow_direction")
+    if fd is not None and len(fd.params()) == 1:
+        def run_fd(pol):
+            I, _, _ = h.interp(pol)
+            return I.call(I.module_value(h.mod, "compute_flow_direction"), [generic("e")], {})
+        for p in explore(run_fd):
+            cons = f"flow-direction[path {p.label()}]"
+            if p.error is not None or not isinstance(p.value, Arr) or p.value.size() != 9:
+                ctx.undecided(rule, fd, None, construct=cons, detail=str(p.error)[:300])
+                continue
+            tr = trace3(p.value.reshape((3, 3)))
+            ctx.decide(rule, rat_is_zero(_A.norm(simplify(tr.a))), fd, None, construct=cons,
+                       detail="trace of the flow direction is identically 0 for a generic strain",
+                       bad_detail=f"flow direction has trace {short(tr)} on the path {p.label()} of its degeneracy switch: plastic flow would change volume")
 
 
-def d1_degenerate_threshold(ctx):
+d1_traceless.RULE = "D1/T9-traceless-flow"
+
+
+def _poly_additive_option(h):
+    """A kinematics option with an additive update whose trial strain is a polynomial of the displacement gradient (no spectral
+    function is called on family strains): the setting in which signs can be decided."""
+    if "_poly_option" in h.__dict__:
+        return h._poly_option
+    why = []
+    for kin in h.kinematics():
+        try:
+            if _update_kind(h, kin) != "additive":
+                continue
+            sc = h.scenario(kin)
+            state = h.make_state(kin, atom("s0"), zeros3())
+            ps = h.paths(sc, "compute_state_new", [family_matrix("axial"), state, atom("dt")])
+            if all(p.error is None and not p.value.spectral for p in ps):
+                h._poly_option = kin
+                return kin
+        except INTERP_ERRORS as ex:
+            why.append(str(ex)[:80])
+    raise Incomplete(f"no kinematics option with an additive update and a polynomial strain measure was found {why[:2]}")
+
+
+
+def _direction_split(h, kin, paths, T_old, E):
+    """Among yielding paths: (regular, fallback) -- on a regular path the plastic increment is parallel to the deviator of the trial
+    strain E with a positive factor, on a fallback path it is a fixed matrix times the increment of the equivalent plastic strain."""
+    reg, fb = [], []
+    dE = dev3(E)
+    for p in paths:
+        if p.error is not None or not _yielding(h, kin, p.value, None):
+            continue
+        _, A, _ = _increment(h, kin, p.value, T_old)
+        par = all(d_equal(A.data[i] * dE.data[j], A.data[j] * dE.data[i]) for i in range(9) for j in range(i + 1, 9))
+        (reg if par else fb).append(p)
+    return reg, fb
+
+
+def _threshold_along_rays(g, Q):
+    """g > 0 selects the fallback direction.  Along the rays H = t * D (two deviatoric directions D) g must be positive for tiny t
+    and negative for large t; returns |dev E|^2 at the switch when both rays agree (the criterion is isotropic), else None."""
+    cs = []
+    for D in FAMILIES.values():
+        def env(t, D=D):
+            return {f"h{i}{j}": t * float(D[i][j]) for i in range(3) for j in range(3)}
+
+        def gv(t):
+            try:
+                v = _A.eval(g, env(t))
+            except (KeyError, ZeroDivisionError, ValueError, OverflowError):
+                return None
+            return None if v != v else v
+        lo, hi = 1e-40, 1e3
+        a, b = gv(lo), gv(hi)
+        if a is None or b is None or not (a > 0 and b < 0):
+            return None
+        for _ in range(300):
+            mid = math.sqrt(lo * hi)
+            v = gv(mid)
+            if v is None:
+                return None
+            if v > 0:
+                lo = mid
+            else:
+                hi = mid
+        try:
+            cs.append(_A.eval(Q.a, env(hi)))
+        except (KeyError, ZeroDivisionError, ValueError):
+            return None
+    if not cs or min(cs) <= 0 or (max(cs) - min(cs)) > 1e-6 * max(cs):
+        return None
+    return max(cs)
+
+
+def d1_degenerate_threshold(ctx, h):
     """The flow direction falls back to a fixed dummy direction when |dev E|^2 <= c.  On a yielding step the trial Mises stress
     2 mu dev(E):N must exceed the flow stress >= Y0; with the fallback direction it is at most 2 mu sqrt(c) |N_fallback|.  So the
     fallback can only be taken while yielding if Y0/mu < 2 sqrt(c |N_fallback|^2): that bound must lie below every admissible
-    yield strain (assumption recorded: yield strength / shear modulus >= 1e-6)."""
-    rule = "D1/T7-degenerate-direction-unreachable-while-yielding"
-    from fractions import Fraction
-    import math
-    fd = ctx.need(f"{J2}:compute_flow_direction")
-    cfg = cfg_of(fd)
-    cmp_nodes = [n for n in cfg.nodes if n.kind == "stmt" and isinstance(n.ast, ast.Assign) and isinstance(n.ast.value, ast.Compare)
-                 and len(n.ast.value.ops) == 1 and isinstance(n.ast.value.ops[0], (ast.Gt, ast.GtE)) and const_value(n.ast.value.comparators[0]) is not None]
-    fb = [c for c in ast.walk(fd.node) if isinstance(c, ast.Assign) and isinstance(c.value, ast.BinOp) and isinstance(c.value.op, ast.Mult)
-          and any(isinstance(k, ast.Call) and (dotted(k.func) or "").split(".")[-1] == "array" for k in ast.walk(c.value))]
-    if len(cmp_nodes) != 1 or len(fb) != 1:
-        ctx.undecided(rule, fd, None, construct="threshold", detail=f"{len(cmp_nodes)} threshold comparisons, {len(fb)} literal fallback directions found")
+    yield strain (assumption recorded: yield strength / shear modulus >= 1e-6).
+    c and N_fallback are read off the *paths*: the comparison on which a regular and a fallback yielding path part is the
+    degeneracy test; its difference expression must be k (|dev E|^2 - c) with E the trial strain."""
+    rule = d1_degenerate_threshold.RULE
+    kin = _poly_additive_option(h)
+    sc = h.scenario(kin)
+    H = generic("h")
+    state = h.make_state(kin, atom("s0"), zeros3())
+    paths = h.paths(sc, "compute_state_new", [H, state, atom("dt")])
+    E = Arr([(H.data[i * 3 + j] + H.data[j * 3 + i]) * Dual(Fraction(1, 2)) for i in range(3) for j in range(3)], (3, 3))
+    # the trial strain of this option at zero plastic strain must be sym(H) for the reading below; checked through the regular path
+    reg, fb = _direction_split(h, kin, paths, zeros3(), E)
+    if not reg:
+        ctx.undecided(rule, h.fscope, None, construct="threshold", detail="no yielding path whose plastic increment is parallel to dev(sym(H)) was found")
         return
-    n = cmp_nodes[0]
-    c = float(const_value(n.ast.value.comparators[0]))
-    from .common import expand
-    lhs = expand(cfg, n, n.ast.value.left)
-    is_sq = isinstance(lhs, ast.Call) and (dotted(lhs.func) or "").split(".")[-1] == "tensordot" and len(lhs.args) == 2 and same(lhs.args[0], src(lhs.args[1])) \
-        and "dev" in src(lhs.args[0])
-    # |N_fallback|^2 from the literal
-    from optilint.expr import feval
-    try:
-        I, _ = _interp(ctx, False)
-        N = I.call(I.module_value(ctx.need_module(J2), "compute_flow_direction"), [generic("e")], {})
-        nn = sum_d(x * x for x in N.data)
-        nn = float(te_const(nn))
-    except Exception as ex:
-        ctx.undecided(rule, fd, None, construct="threshold", detail=f"fallback direction not evaluated: {ex}")
+    if not fb:
+        ctx.proved(rule, h.fscope, None, construct="fallback-needs-yield-strain-below-bound", detail="no yielding path uses a direction other than the deviator of the trial strain")
         return
+    Q = ddot(dev3(E), dev3(E))
+    results = []
+    for pf in fb:
+        # the decision on which this fallback path parts from a regular path
+        best = None
+        for pr in reg:
+            for (k1, d1, s1), (k2, d2, s2) in zip(pf.trail, pr.trail):
+                if k1 != k2:
+                    break
+                if s1 != s2:
+                    best = (d1, s1)
+                    break
+            if best:
+                break
+        if best is None:
+            ctx.undecided(rule, h.fscope, None, construct="threshold", detail="the comparison that selects the fallback direction was not identified")
+            return
+        d, s = best
+        g = _A.norm(d * te.R(s))                  # g > 0 (or >= 0) on the fallback side
+        c0 = g
+        for a_ in sorted(g.atoms()):
+            c0 = _A.subst(c0, a_, te.R(0))
+        c0v = rat_const(c0)
+        rest = _A.norm(c0 - g)                    # must be k * |dev E|^2, k > 0
+        kq = None
+        if c0v is not None and c0v > 0 and rest.d.is_const() and Q.a.d.is_const() and not Q.a.n.is_zero():
+            m0 = sorted(Q.a.n.t)[0]
+            cq = Q.a.n.t[m0] / Q.a.d.const_value()
+            cr = rest.n.t.get(m0, Fraction(0)) / rest.d.const_value()
+            kq = cr / cq if cq != 0 else None
+        if kq is None or kq <= 0 or not _A.equal(rest, _A.norm(Q.a * te.R(kq))):
+            # not literally k (c - |dev E|^2): locate the switch numerically along two deviatoric rays (isotropic criterion)
+            c = _threshold_along_rays(g, Q)
+            if c is None:
+                ctx.undecided(rule, h.fscope, None, construct="threshold",
+                              detail=f"the test that selects the fallback direction is not a bound on |dev E|: {short(g)} > 0")
+                return
+        else:
+            c = c0v / kq
+        _, A, _ = _increment(h, kin, pf.value, zeros3())
+        e_new, _ = h.split_state(kin, pf.value.value)
+        delta = e_new - atom("s0")
+        nn = ddot(A, A) / (delta * delta)
+        nnv = rat_const(_A.norm(simplify(nn.a)))
+        if nnv is None:
+            ctx.undecided(rule, h.fscope, None, construct="threshold", detail=f"|N_fallback|^2 is not a constant: {short(nn)}")
+            return
+        results.append((float(c), float(nnv)))
+    c, nn = max(results, key=lambda r: r[0] * r[1])
     bound = 2.0 * math.sqrt(c * nn)
-    ok = is_sq and bound <= 1e-6
-    ctx.decide(rule, ok, fd, n.ast, construct="fallback-needs-yield-strain-below-bound",
+    ctx.decide(rule, bound <= 1e-6, h.fscope, None, construct="fallback-needs-yield-strain-below-bound",
                detail=f"fallback when |dev E|^2 <= {c:g}; reachable while yielding only if Y0/mu < {bound:.3g} (<= 1e-6)",
-               bad_detail=f"`{src(n.ast)}`: the dummy flow direction (|N|^2 = {nn:g}) is used when |dev E|^2 <= {c:g}; a step can yield there whenever "
+               bad_detail=f"the dummy flow direction (|N|^2 = {nn:g}) is used when |dev E|^2 <= {c:g} (E the trial elastic strain); a step can yield there whenever "
                           f"yield strength / shear modulus < {bound:.3g}, which includes admissible materials (>= 1e-6): the plastic flow then follows the dummy direction")
     ctx.assume("admissible constants: yield strength / shear modulus >= 1e-6")
 
 
-def te_const(d):
-    from optilint.tensoreval import rat_const
-    c = rat_const(d.a)
-    if c is None:
-        raise ValueError("not constant")
-    return c
+d1_degenerate_threshold.RULE = "D1/T7-degenerate-direction-unreachable-while-yielding"
 
 
-def d1_layout(ctx):
-    rule = "D1/T5-state-layout"
-    mod = ctx.need_module(J2)
-    I, _ = _interp(ctx, None)
-    sc = ctx.need(f"{J2}:compute_state_new_finite_deformations")
-    try:
-        eq = I.module_value(mod, "EQPS")
-        sl = I.module_value(mod, "PLASTIC_DISTORTION")
-        nsv = I.module_value(mod, "NUM_STATE_VARS")
-        ok = eq == 0 and isinstance(sl, slice) and sl.start == 1 and sl.stop == 10 and nsv == 10
-        ctx.decide(rule, ok, mod.scope, None, construct="constants", detail=f"EQPS={eq}, PLASTIC_DISTORTION={sl}, NUM_STATE_VARS={nsv}",
-                   bad_detail=f"state layout constants are inconsistent: EQPS={eq}, PLASTIC_DISTORTION={sl}, NUM_STATE_VARS={nsv} (one scalar + 9 tensor entries expected)")
-        for fn, want in (("make_initial_state_finite_deformations", "identity"), ("make_initial_state_small_deformations", "zero")):
-            s0 = I.call(I.module_value(mod, fn), [], {}).ravel()
-            seg = I.getitem(s0, sl).reshape((3, 3))
-            okv = s0.shape == (nsv,) and I.getitem(s0, eq).is_zero()
-            if want == "identity":
-                okt = all((seg.data[i * 3 + j] - Dual(1 if i == j else 0)).is_zero() for i in range(3) for j in range(3))
-            else:
-                okt = all(x.is_zero() for x in seg.data)
-            ctx.decide(rule, okv and okt, ctx.need(f"{J2}:{fn}"), None, construct=f"{fn}", detail=f"length {s0.shape[0]}, eqps 0, distortion segment {want}",
-                       bad_detail=f"{fn}: virgin state has length {s0.shape[0]}, eqps slot {I.getitem(s0, eq)!r}, distortion segment not {want}")
-        # finite update: [eqps_old + d_eqps, (exp_symm(segment) @ Fp_old).ravel()]
-        state = Arr([Dual(_A.atom(f"s{k}")) for k in range(10)], (10,))
-        incv = Arr([Dual(_A.atom(f"d{k}")) for k in range(10)], (10,))
-        I.special[f"{J2}:compute_state_increment"] = lambda interp, a, k: incv
-        I.special[f"{J2}:compute_elastic_logarithmic_strain"] = lambda interp, a, k: generic("e")
-        X = generic("x")
-        seen = {}
-
-        def exp_symm(interp, a, k):
-            seen["arg"] = a[0]
-            return X
-        I.special["optimism.TensorMath:exp_symm"] = exp_symm
-        new = I.call(I.module_value(mod, "compute_state_new_finite_deformations"),
-                     [generic("h"), state, Dual(_A.atom("dt")), PosVec("p", I), None], {})
-        ok0 = _A.equal(I.getitem(new, eq).a, _A.norm(_A.atom("s0") + _A.atom("d0")))
-        argok = isinstance(seen.get("arg"), Arr) and all(_A.equal(seen["arg"].data[k].a, _A.atom(f"d{k + 1}")) for k in range(9))
-        from optilint.tensoreval import matmul
-        FpOld = Arr([Dual(_A.atom(f"s{k + 1}")) for k in range(9)], (3, 3))
-        want = matmul(X, FpOld)
-        got = I.getitem(new, sl).reshape((3, 3))
-        okp = all(_A.equal(a.a, b.a) for a, b in zip(got.data, want.data))
-        ctx.decide(rule, ok0 and argok and okp and new.shape == (10,), sc, None, construct="finite-update-layout",
-                   detail="new state = [eqps_old + d_eqps, (exp_symm(increment segment) @ Fp_old).ravel()]",
-                   bad_detail=f"finite-deformation update: eqps slot ok={ok0}, exp_symm argument is the increment's tensor segment={argok}, "
-                              f"distortion = exp_symm(.) @ Fp_old (row-major)={okp}, length {new.shape}")
-        for fn in ("compute_state_new_small_deformations", "compute_state_new_seth_hill"):
-            I2, _ = _interp(ctx, None)
-            I2.special[f"{J2}:compute_state_increment"] = lambda interp, a, k: incv
-            I2.special[f"{J2}:compute_elastic_linear_strain"] = lambda interp, a, k: generic("e")
-            I2.special[f"{J2}:compute_elastic_seth_hill_strain"] = lambda interp, a, k: generic("e")
-            new = I2.call(I2.module_value(mod, fn), [generic("h"), state, Dual(_A.atom("dt")), PosVec("p", I2), None], {})
-            ok = new.shape == (10,) and all(_A.equal(new.data[k].a, _A.norm(_A.atom(f"s{k}") + _A.atom(f"d{k}"))) for k in range(10))
-            ctx.decide(rule, ok, ctx.need(f"{J2}:{fn}"), None, construct=f"{fn}:additive-update", detail="new state = old state + increment",
-                       bad_detail=f"{fn} does not return old state + increment")
-    except (EvalError, Raised, KeyError, IndexError, TypeError, AttributeError) as ex:
-        ctx.undecided(rule, sc, None, construct="layout", detail=str(ex))
-
-
-def d2_bracket(ctx):
-    rule = "D2/T2-bracket-roles"
-    mod = ctx.need_module(J2)
-    us = ctx.need(f"{J2}:update_state")
-    for pol in (True, False):
-        I, rec = _interp(ctx, pol)
+def d1_layout(ctx, h):
+    rule = d1_layout.RULE
+    I, _, _ = h.interp()
+    dt = atom("dt")
+    # layout constants, when the module defines them under their public names, must agree with the roles found by use
+    roles = {}
+    for kin in h.kinematics():
         try:
-            hm = _hardening(ctx, I)
-            state = Arr([Dual(_A.atom(f"s{k}")) for k in range(10)], (10,))
-            props = PosVec("p", I)
-            dt = Dual(_A.atom("dt"))
-            E = generic("e")
-            inc = I.call(I.module_value(mod, "update_state"), [E, state, dt, props, hm], {})
-            args = rec.get("args")
-            if not args or len(args) < 3 or not isinstance(args[2], Arr):
-                ctx.undecided(rule, us, None, construct=f"bracket[{pol}]", detail="find_root call not observed")
+            roles[kin] = h.roles(kin)
+        except INTERP_ERRORS as ex:
+            ctx.undecided(rule, h.fscope, None, construct=f"kinematics={_kname(kin)}:state-slot-roles", detail=str(ex)[:300])
+    if not roles:
+        raise EvalError("the roles of the state slots could not be found for any kinematics option")
+    n, ie, seg = list(roles.values())[0]
+    same_roles = all(r == (n, ie, seg) for r in roles.values())
+    consts = {}
+    for nm in ("EQPS", "PLASTIC_DISTORTION", "NUM_STATE_VARS"):
+        if nm in h.mod.scope.bindings:
+            try:
+                consts[nm] = I.module_value(h.mod, nm)
+            except INTERP_ERRORS:
+                pass
+    shown = f"roles by use: {n} slots, equivalent plastic strain in slot {ie}, tensor in slots {seg[0]}..{seg[-1]}"
+    if not (same_roles and len(seg) == 9 and seg == list(range(seg[0], seg[0] + 9))):
+        # unusual but not contradictory: the constants cannot be compared with one layout
+        ctx.undecided(rule, h.mod.scope, None, construct="constants", detail=f"the kinematics options use different state layouts or a non-contiguous tensor segment: {roles}")
+        consts = None
+    bad = []
+    consts_ = consts or {}
+    eq = consts_.get("EQPS")
+    if isinstance(eq, slice):
+        eq = list(range(*eq.indices(n)))
+        eq = eq[0] if len(eq) == 1 else eq
+    if isinstance(eq, (int, list)) and not isinstance(eq, bool) and eq != ie:
+        bad.append(f"EQPS = {consts['EQPS']} but the root of the scalar solve is stored in slot {ie}")
+    sl = consts_.get("PLASTIC_DISTORTION")
+    if sl is not None and not (isinstance(sl, slice) and list(range(*sl.indices(n))) == seg):
+        bad.append(f"PLASTIC_DISTORTION = {sl} does not select the 9 slots {seg[0]}..{seg[-1]} of the tensor segment")
+    if "NUM_STATE_VARS" in consts_ and consts["NUM_STATE_VARS"] != n:
+        bad.append(f"NUM_STATE_VARS = {consts['NUM_STATE_VARS']} but states have {n} slots")
+    if consts is not None:
+        ctx.decide(rule, not bad, h.mod.scope, None, construct="constants", detail=shown + f"; constants {consts}",
+                   bad_detail="state layout is inconsistent: " + "; ".join(bad) + " (one scalar + 9 tensor entries expected)")
+    for kin in h.kinematics():
+        sc = h.scenario(kin)
+        cons = f"kinematics={_kname(kin)}"
+        try:
+            kind = _update_kind(h, kin)
+            s_init = h.initial_state(sc)
+            e0, T0 = h.split_state(kin, s_init)
+            want = ident3() if kind == "multiplicative" else zeros3()
+            okv = s_init.shape[0] == n and e0.is_zero()
+            okt = arr_equal(T0, want)
+            ctx.decide(rule, okv and okt, h.fscope, None, construct=f"{cons}:virgin-state",
+                       detail=f"{kind} update; virgin state has {s_init.shape[0]} slots, zero equivalent plastic strain, tensor segment {'identity' if kind == 'multiplicative' else 'zero'}",
+                       bad_detail=f"{cons}: the update of the tensor segment is {kind} but the virgin state has equivalent plastic strain {short(e0)} and tensor segment "
+                                  f"{[short(x, 12) for x in T0.data]} ({'identity' if kind == 'multiplicative' else 'zero'} expected: the plastic distortion must start volume preserving and stress free)")
+        except INTERP_ERRORS as ex:
+            ctx.undecided(rule, h.fscope, None, construct=f"{cons}:virgin-state", detail=str(ex)[:300])
+            continue
+        # structure of the update on a general old state
+        try:
+            T_old = generic("f") if kind == "multiplicative" else generic_sym("p")
+            state = h.make_state(kin, atom("s0"), T_old)
+            paths = h.paths(sc, "compute_state_new", [generic("h"), state, dt])
+            bad, n_y = [], 0
+            for p in paths:
+                if p.error is not None:
+                    raise EvalError(str(p.error))
+                new = p.value.value
+                if not isinstance(new, Arr) or new.ravel().shape[0] != n:
+                    bad.append(f"path {p.label()}: the new state has shape {getattr(new, 'shape', None)}, not ({n},)")
+                    continue
+                e_new, T_new = h.split_state(kin, new)
+                if _yielding(h, kin, p.value, None):
+                    n_y += 1
+                    if not d_equal(e_new, atom(Harness.ROOT)):
+                        bad.append(f"yielding path {p.label()}: new equivalent plastic strain is {short(e_new)}, not the root of the scalar solve")
+                    _, A, R = _increment(h, kin, p.value, T_old)
+                    if kind == "multiplicative":
+                        if not arr_equal(T_new, matmul(R, T_old)):
+                            alts = {"old @ exp(A)": matmul(T_old, R), "exp(A).T @ old": matmul(R.T(), T_old), "exp(A) @ old.T": matmul(R, T_old.T()),
+                                    "old.T @ exp(A)": matmul(T_old.T(), R)}
+                            hit = [k for k, v in alts.items() if arr_equal(T_new, v)]
+                            if hit:
+                                bad.append(f"yielding path {p.label()}: the new plastic distortion is {hit[0]} instead of exp(A) @ old (row-major): the increment is applied "
+                                           f"in the wrong configuration")
+                            else:
+                                raise EvalError("new distortion is not a product of the exponential and the old distortion")
+                        if not all(d_equal(A.data[i * 3 + j], A.data[j * 3 + i]) for i in range(3) for j in range(i)):
+                            bad.append(f"yielding path {p.label()}: the argument of the matrix exponential is not symmetric")
+                    # a root equal to the old equivalent plastic strain means no plastic flow: the plastic increment must vanish with it
+                    A0 = [_A.norm(simplify(_A.subst(x.a, Harness.ROOT, _A.atom("s0")))) for x in A.data]
+                    if not all(rat_is_zero(x) for x in A0):
+                        nz = [repr(x)[:60] for x in A0 if not rat_is_zero(x)]
+                        bad.append(f"yielding path {p.label()}: when the root equals the old equivalent plastic strain the plastic increment "
+                                   f"({'argument of the matrix exponential' if kind == 'multiplicative' else 'new - old plastic strain'}) is {nz[0]}, not 0: "
+                                   f"the tensor segment changes without plastic flow")
+                else:
+                    if not d_equal(e_new, atom("s0")) or not arr_equal(T_new, T_old):
+                        bad.append(f"elastic path {p.label()}: the state changes although no plastic solve is made (new eqps {short(e_new)})")
+            if not n_y:
+                raise EvalError("no yielding path")
+            what = "new = [root, (exp(A) @ old distortion).ravel()], A symmetric" if kind == "multiplicative" else "new = old + [root - old eqps, plastic increment]"
+            ctx.decide(rule, not bad, h.fscope, None, construct=f"{cons}:update-structure", detail=f"{len(paths)} paths: {what}; elastic paths leave the state unchanged",
+                       bad_detail=f"{cons} ({kind} update): " + "; ".join(bad[:3]))
+        except INTERP_ERRORS as ex:
+            ctx.undecided(rule, h.fscope, None, construct=f"{cons}:update-structure", detail=str(ex)[:300])
+    # multiplicative update: the argument of the exponential is the plastic strain increment of the return map.  Decided through the
+    # property's own clause on coaxial data: the energy evaluated after committing the update equals the energy before (which applies
+    # the increment internally), with log(exp(a) b) = a + log b on positive scalars.
+    for kin in h.kinematics():
+        try:
+            if _update_kind(h, kin) != "multiplicative":
                 continue
-            lb, ub = args[2].data[0], args[2].data[1]
-            guess = I.num(args[1])
-            ok_lb = _A.equal(lb.a, _A.atom("s0"))
-            ctx.decide(rule, ok_lb, us, None, construct=f"bracket-lower-end-is-old-eqps[{pol}]", detail=f"lower end {lb.a!r}",
-                       bad_detail=f"the root-finder bracket starts at {lb.a!r}, not at the old equivalent plastic strain: the update could decrease it")
-            # increment = root - old
-            ok_i = _A.equal(inc.data[0].a, _A.norm(_A.atom("eqpsRoot") - _A.atom("s0")))
-            ctx.decide(rule, ok_i, us, None, construct=f"increment-is-root-minus-old[{pol}]", detail="d_eqps = root - eqps_old",
-                       bad_detail=f"eqps increment is {inc.data[0].a!r}, not (root - old)")
-        except (EvalError, Raised, KeyError, IndexError, TypeError, AttributeError) as ex:
-            ctx.undecided(rule, us, None, construct=f"bracket[{pol}]", detail=str(ex))
-    d2_bracket_signs(ctx)
-    # yield test uses the same trial stress and flow stress; elastic branch adds zero
-    ci = ctx.need(f"{J2}:compute_state_increment")
-    I, rec = _interp(ctx, False)
+        except INTERP_ERRORS:
+            continue
+        _commit_invariance(ctx, h, kin, rule, f"kinematics={_kname(kin)}:exponential-argument-is-the-plastic-increment")
+
+
+d1_layout.RULE = "D1/T5-state-layout"
+
+
+def _commit_invariance(ctx, h, kin, rule, cons):
+    """Rate-independent hardening: energy(H, old state) on a yielding path (the update is applied internally) must equal
+    energy(H, new state) with new = compute_state_new(H, old) on the same path, evaluated where the committed state no longer yields."""
+    dt = atom("dt")
     try:
-        hm = _hardening(ctx, I)
-        state = Arr([Dual(_A.atom(f"s{k}")) for k in range(10)], (10,))
-        inc = I.call(I.module_value(mod, "compute_state_increment"), [generic("e"), state, Dual(_A.atom("dt")), PosVec("p", I), hm], {})
-        ok = all(x.is_zero() for x in inc.data) and inc.shape == (10,)
-        ctx.decide(rule, ok, ci, None, construct="elastic-branch-adds-zero", detail="not yielding => zero increment of full length",
-                   bad_detail="the elastic branch of compute_state_increment does not return a zero increment of NUM_STATE_VARS entries")
-    except (EvalError, Raised, KeyError, IndexError, TypeError, AttributeError) as ex:
-        ctx.undecided(rule, ci, None, construct="elastic-branch-adds-zero", detail=str(ex))
-    # structure of the yield test: (trial - flow) > tol * Y0  with trial, flow as in update_state
-    cfg = cfg_of(ci)
-    tests = [n for n in cfg.nodes if n.kind == "stmt" and isinstance(n.ast, ast.Assign) and isinstance(n.ast.value, ast.Compare)]
-    ok = False
-    shown = "?"
-    for n in tests:
-        c = n.ast.value
-        shown = src(c)
-        if isinstance(c.ops[0], ast.Gt) and isinstance(c.left, ast.BinOp) and isinstance(c.left.op, ast.Sub):
-            from .common import normal_form
-            l = normal_form(ci, n, c.left.left)
-            r = normal_form(ci, n, c.left.right)
-            ok = "tensordot" in src(l) and "compute_flow_direction" in src(l) and ("FLOW_STRESS" in src(r) or "compute_flow_stress" in src(r) or "jax.grad(hardening)" in src(r))
-    ctx.decide(rule, ok, ci, tests[0].ast if tests else None, construct="yield-test-form", detail=shown,
-               bad_detail=f"yield test `{shown}` is not (trial Mises stress - flow stress) > tolerance")
+        sc = h.scenario(kin)
+        kind = _update_kind(h, kin)
+        if kind == "additive":
+            H, T_old, kw = generic("h"), zeros3(), {}        # (a general old plastic strain is used by the dispatch and layout rules)
+        else:
+            # coaxial data: F = diag(phi), Fp = diag(psi), positive
+            pos = {f"phi{i}" for i in range(3)} | {f"psi{i}" for i in range(3)}
+            H = Arr([(atom(f"phi{i}") - Dual(1)) if i == j else Dual(0) for i in range(3) for j in range(3)], (3, 3))
+            T_old = Arr([atom(f"psi{i}") if i == j else Dual(0) for i in range(3) for j in range(3)], (3, 3))
+            kw = {"logexp": True, "positive": pos}
+        old = h.make_state(kin, atom("s0"), T_old)
+        bad, n_y = [], 0
+        for p in h.paths(sc, "compute_state_new", [H, old, dt], **kw):
+            if p.error is not None:
+                raise EvalError(str(p.error))
+            if not _yielding(h, kin, p.value, None):
+                continue
+            new = p.value.value.ravel()
+            W_old = h.call(sc, "compute_energy_density", [H, old, dt], policy=sym.replay_policy(p), **kw)
+            if not W_old.solves:
+                raise EvalError("the energy closure makes no scalar solve on a path on which the state update does")
+            W_old = W_old.interp.num(W_old.value)
+            after = [q for q in h.paths(sc, "compute_energy_density", [H, new, dt], preset=p, **kw) if q.error is None and not q.value.solves]
+            if not after:
+                raise EvalError("no path on which the committed state is elastic")
+            n_y += 1
+            for q in after:
+                W_new = q.value.interp.num(q.value.value)
+                if not d_equal(W_old, W_new):
+                    diff = _A.norm(simplify((W_new - W_old).a))
+                    bad.append(f"path {p.label()}: energy after committing the update minus energy before = {short(diff, 200)}")
+                    break
+        if not n_y:
+            raise EvalError("no yielding path")
+        ctx.decide(rule, not bad, h.fscope, None, construct=cons,
+                   detail=f"{kind} update, rate-independent hardening: energy(H, old state) == energy(H, committed state) on {n_y} yielding path(s)",
+                   bad_detail=f"kinematics={_kname(kin)} ({kind} update): the energy changes when the state update is committed, i.e. the state written by compute_state_new is not "
+                              f"the state at which the energy closure evaluates the energy (plastic increment / equivalent plastic strain applied differently): " + "; ".join(bad[:2]))
+    except INTERP_ERRORS as ex:
+        ctx.undecided(rule, h.fscope, None, construct=cons, detail=str(ex)[:300])
 
 
-def _sign_witness(r, want_positive):
-    """A point with all symbols positive where `r` has the wrong sign (or vanishes); '' if none is found on a small grid."""
+# ------------------------------------------------------------------ D2
+
+def _parting(p, others):
+    """(difference expression, sign on p) of the first comparison on which p and one of `others` take different outcomes after
+    agreeing on all earlier ones."""
+    for o in others:
+        for (k1, d1, s1), (k2, d2, s2) in zip(p.trail, o.trail):
+            if k1 != k2:
+                break
+            if s1 != s2:
+                return d1, s1
+    return None
+
+
+def _sign_witness(r, want_positive, strict=True):
+    """A point with all symbols positive where `r` has the wrong sign (or vanishes, when strict); '' if none is found on a small grid."""
     import itertools
     atoms = sorted(r.atoms())
     plain = [a for a in atoms if not a.startswith("sqrt[")]
@@ -306,198 +547,506 @@ def _sign_witness(r, want_positive):
             continue
         if v != v:
             continue
-        if (want_positive and v <= 0) or (not want_positive and v >= 0):
+        if (want_positive and (v <= 0 if strict else v < 0)) or (not want_positive and (v >= 0 if strict else v > 0)):
             return " (e.g. " + ", ".join(f"{k}={x:g}" for k, x in env.items()) + f" gives {v:.3g})"
     return ""
 
 
-def d2_bracket_signs(ctx):
+def d2_bracket(ctx, h):
+    rule = d2_bracket.RULE
+    dt = atom("dt")
+    root = atom(Harness.ROOT)
+    # roles of the bracket and of the root on every yielding path of every option (generic strain)
+    for kin in h.kinematics():
+        sc = h.scenario(kin)
+        cons = f"kinematics={_kname(kin)}"
+        try:
+            _, T0 = h.split_state(kin, h.initial_state(sc))
+            state = h.make_state(kin, atom("s0"), T0)
+            paths = h.paths(sc, "compute_state_new", [generic("h"), state, dt])
+            n_y = n_e = 0
+            for p in paths:
+                if p.error is not None:
+                    raise EvalError(str(p.error))
+                e_new, T_new = h.split_state(kin, p.value.value)
+                if _yielding(h, kin, p.value, None):
+                    n_y += 1
+                    if not p.value.solves:
+                        raise EvalError("a root appears in the state without a scalar solve")
+                    lows = [s.lo for s in p.value.solves]
+                    ok_lb = all(d_equal(lo, atom("s0")) for lo in lows)
+                    ctx.decide(rule, ok_lb, h.fscope, None, construct=f"{cons}[path {p.label()}]:bracket-lower-end-is-old-eqps", detail=f"lower end {short(lows[0])}",
+                               bad_detail=f"{cons}: the root-finder bracket starts at {short([lo for lo in lows if not d_equal(lo, atom('s0'))][0]) if not ok_lb else ''}, "
+                                          f"not at the old equivalent plastic strain: the update could decrease it")
+                    ctx.decide(rule, d_equal(e_new, root), h.fscope, None, construct=f"{cons}[path {p.label()}]:new-eqps-is-the-root", detail="eqps_new = old + (root - old) = root",
+                               bad_detail=f"{cons}: the new equivalent plastic strain is {short(e_new)}, not the root found in the bracket [old, .] (increment is not root - old)")
+                else:
+                    n_e += 1
+                    same = d_equal(e_new, atom("s0")) and arr_equal(T_new, T0) and p.value.value.ravel().shape[0] == h.roles(kin)[0]
+                for (sa, sb) in p.value.branch_mismatch:
+                    ctx.refuted(rule, h.fscope, None, construct=f"{cons}[path {p.label()}]:branches-return-the-same-shape",
+                                detail=f"{cons}: the two branches of a lax.cond (plastic update / elastic step) return arrays of shapes {sa} and {sb}: the state increment "
+                                       f"of one branch does not have the full state length")
+                if not _yielding(h, kin, p.value, None):
+                    ctx.decide(rule, same, h.fscope, None, construct=f"{cons}[path {p.label()}]:elastic-path-leaves-state-unchanged", detail="not yielding => zero increment of full length",
+                               bad_detail=f"{cons}: on a path without plastic solve the state changes (new eqps {short(e_new)}; length {p.value.value.ravel().shape[0]})")
+            if not n_y or not n_e:
+                raise EvalError(f"{n_y} yielding and {n_e} elastic paths")
+        except INTERP_ERRORS as ex:
+            ctx.undecided(rule, h.fscope, None, construct=f"{cons}:bracket-roles", detail=str(ex)[:300])
+    d2_bracket_signs(ctx, h)
+
+
+d2_bracket.RULE = "D2/T2-bracket-roles"
+
+
+def yield_test_offset(g, fl, positive):
+    """g: yield test (yielding <=> g > 0), fl: residual at the old equivalent plastic strain, both affine in the strain amplitude t.
+    Returns (verdict, text): True when g = a * (-fl) - b with a > 0, b >= 0 free of t; False when b < 0; None otherwise."""
+    cg = _A.diff(g, "t")
+    cf = _A.diff(_A.norm(-fl.a), "t")
+    if "t" in cg.atoms() or "t" in cf.atoms() or rat_is_zero(cf):
+        return None, "scale not constant in the strain amplitude"
+    a = _A.norm(simplify(cg / cf))
+    b = _A.norm(simplify(a * _A.norm(-fl.a) - g))
+    shown = f"a = {short(a, 60)}, b = {short(b, 80)}"
+    if rat_sign(a, positive) != 1 or "t" in b.atoms():
+        return None, shown
+    sg = rat_sign(b, positive)
+    if sg is None and _sign_witness(b, want_positive=True, strict=False):
+        sg = -1
+    return (True if sg in (0, 1) else (False if sg == -1 else None)), shown
+
+
+def d2_bracket_signs(ctx, h):
     """Root-finder contract at the call site (C17 returns NaN unless the residual has strictly opposite signs at the two ends):
     the residual handed to find_root is evaluated symbolically at both ends of the bracket on one-parameter families of trial
-    strains (t * fixed deviatoric direction + q * I), with the trial Mises stress written as flow stress + x, x > 0 (yielding),
-    linear hardening with modulus H > 0 and H = 0 (perfect plasticity), old plastic strain s0 > 0 and s0 = 0.
-    Required: residual(lower) < 0 and residual(upper) > 0 strictly.  (The initial guess is not constrained: the root finder
-    clips it into the bracket.)"""
-    rule = "D2/T2-bracket-roles"
-    mod = ctx.need_module(J2)
-    us = ctx.need(f"{J2}:update_state")
-    from fractions import Fraction
-    half = Dual(Fraction(1, 2))
-    fams = {"axial": [[Dual(1), Dual(0), Dual(0)], [Dual(0), -half, Dual(0)], [Dual(0), Dual(0), -half]],
-            "shear": [[Dual(0), Dual(1), Dual(0)], [Dual(1), Dual(0), Dual(0)], [Dual(0), Dual(0), Dual(0)]]}
-    n_done = 0
-    for fam, Dm in fams.items():
-        for hcase in ("H>0", "H=0"):
-            for scase in ("s0>0", "s0=0"):
-                tag = f"{fam},{hcase},{scase}"
-                I, rec = _interp(ctx, True)       # flow direction on its regular branch (non-zero deviator)
-                try:
-                    hmod = ctx.need_module("optimism.material.Hardening")
-                    opts = {"hardening model": "linear"}
-                    if hcase == "H=0":
-                        opts["hardening modulus"] = Dual(0)
-                    hprops = mt.PropDict(I, opts, {"hardening model", "rate sensitivity"})
-                    hm = I.call(I.module_value(hmod, "create_hardening_model"), [hprops], {})
-                    s0 = Dual(_A.atom("s0")) if scase == "s0>0" else Dual(0)
-                    I.positive.update({"s0", "t", "x", "dt"})
-                    state = Arr([s0] + [Dual(_A.atom(f"s{k}")) for k in range(1, 10)], (10,))
-                    props = PosVec("p", I)
-                    dt = Dual(_A.atom("dt"))
-                    t, q = Dual(_A.atom("t")), Dual(_A.atom("q"))
-                    E = Arr([t * Dm[i][j] + (q if i == j else Dual(0)) for i in range(3) for j in range(3)], (3, 3))
-                    I.call(I.module_value(mod, "update_state"), [E, state, dt, props, hm], {})
-                    args = rec.get("args")
-                    if not args or len(args) < 3 or not isinstance(args[2], Arr):
-                        ctx.undecided(rule, us, None, construct=f"bracket-signs[{tag}]", detail="find_root call not observed")
-                        continue
-                    f, guess = args[0], I.num(args[1])
-                    lb, ub = args[2].data[0], args[2].data[1]
-                    fl, fu = I.num(I.call(f, [lb], {})), I.num(I.call(f, [ub], {}))
-                    # trial Mises stress T(t) = c*t from the residual at the lower end: fl = -(T - Y_old); Y_old from the hardening model
-                    Yold = I.num(I.call(hm.values[1], [s0, s0, dt], {}))
-                    T = _A.norm((-fl - Dual(0)).a + Yold.a) if False else _A.norm(Yold.a - fl.a)
-                    c = _A.diff(T, "t")
-                    lin = _A.equal(_A.norm(c * _A.atom("t")), T) and rat_sign(c, I.positive) == 1 and "t" not in c.atoms()
-                    if not lin:
-                        ctx.undecided(rule, us, None, construct=f"bracket-signs[{tag}]", detail=f"residual at the lower end is not flow stress - c*t: {fl.a!r}")
-                        continue
-                    # yielding: T = Y_old + x with x > 0  <=>  t = (Y_old + x)/c
-                    tx = _A.norm((Yold.a + _A.atom("x")) / c)
-                    sub = lambda d: _A.norm(simplify(_A.subst(d.a, "t", tx)))
-                    sl_, su_ = rat_sign(sub(fl), I.positive), rat_sign(sub(fu), I.positive)
-                    wit_l = wit_u = ""
-                    if sl_ is None:
-                        w = _sign_witness(sub(fl), want_positive=False)
-                        if w:
-                            sl_, wit_l = 1, w
-                    if su_ is None:
-                        w = _sign_witness(sub(fu), want_positive=True)
-                        if w:
-                            su_, wit_u = -1, w
-                    n_done += 1
-                    ctx.decide(rule, (sl_ == -1) if sl_ is not None else None, us, None, construct=f"residual-negative-at-lower-end[{tag}]",
-                               detail=f"residual(lower) = {sub(fl)!r} < 0 while yielding",
-                               bad_detail=f"residual at the lower bracket end is {sub(fl)!r} (x = yield excess > 0): not negative{wit_l}, the bracket [old eqps, .] does not enclose the root from below")
-                    ctx.decide(rule, (su_ == 1) if su_ is not None else None, us, None, construct=f"residual-positive-at-upper-end[{tag}]",
-                               detail=f"residual(upper) = {sub(fu)!r} > 0",
-                               bad_detail=f"residual at the upper bracket end is {sub(fu)!r} for {hcase}, {scase} (x = yield excess > 0): not strictly positive{wit_u}, so the "
-                                          f"sign test of the root finder (NaN unless f(lo)*f(hi) < 0) is decided by round-off and the update returns NaN")
-                except (EvalError, Raised, KeyError, IndexError, TypeError, AttributeError, ZeroDivisionError) as ex:
-                    ctx.undecided(rule, us, None, construct=f"bracket-signs[{tag}]", detail=str(ex))
+    strains (t * fixed deviatoric direction + q * I).  "Yielding" is taken from the model itself: the comparison on which the yielding
+    path parts from the elastic one, g(t) > 0, must be increasing and linear in the strain amplitude t; t is eliminated through
+    g(t) = x with x > 0.  Linear hardening with modulus H > 0 and H = 0 (perfect plasticity), old plastic strain s0 > 0 and s0 = 0,
+    with and without (linear) rate sensitivity.
+    Required: residual(lower) < 0 and residual(upper) > 0 strictly, and -residual(lower) - g >= 0 independent of the strain (the yield
+    test is the residual at the old state up to a tolerance).  (The initial guess is not constrained: the root finder clips it.)"""
+    rule = d2_bracket.RULE
+    kin = _poly_additive_option(h)
+    dt = atom("dt")
+    cases = [(f, hc, s_, False) for f in FAMILIES for hc in ("H>0", "H=0") for s_ in ("s0>0", "s0=0")]
+    if "rate sensitivity" in h.presence | h.optional:
+        cases += [(f, "H>0", "s0>0", True) for f in FAMILIES]
+    for fam, hcase, scase, rate in cases:
+        tag = f"{fam},{hcase},{scase}" + (",rate-sensitive" if rate else "")
+        try:
+            sc = h.scenario(kin, perfect=(hcase == "H=0"), rate=rate)
+            s0 = atom("s0") if scase == "s0>0" else Dual(0)
+            state = h.make_state(kin, s0, zeros3())
+            E = family_matrix(fam)
+            paths = h.paths(sc, "compute_state_new", [E, state, dt])
+            bad_paths = [p for p in paths if p.error is not None]
+            if bad_paths:
+                raise EvalError(str(bad_paths[0].error))
+            reg, fb = _direction_split(h, kin, paths, zeros3(), E)
+            elastic = [p for p in paths if not _yielding(h, kin, p.value, None)]
+            if len(reg) != 1 or not elastic:
+                raise EvalError(f"{len(reg)} regular yielding paths, {len(elastic)} elastic paths")
+            p = reg[0]
+            if len(p.value.solves) != 1:
+                raise EvalError(f"{len(p.value.solves)} scalar solves on the yielding path")
+            sol = p.value.solves[0]
+            part = _parting(p, elastic)
+            if part is None:
+                raise EvalError("the comparison that separates the yielding from the elastic path was not identified")
+            g = _A.norm(part[0] * te.R(part[1]))             # yielding <=> g > 0
+            I = p.value.interp
+            fl, fu = h.residual(p.value, sol, sol.lo), h.residual(p.value, sol, sol.hi)
+            c = _A.diff(g, "t")
+            g0 = _A.norm(_A.subst(g, "t", te.R(0)))
+            lin = "t" not in c.atoms() and _A.equal(_A.norm(c * _A.atom("t") + g0), g) and rat_sign(c, I.positive) == 1
+            if not lin:
+                ctx.undecided(rule, h.fscope, None, construct=f"bracket-signs[{tag}]", detail=f"the yield test is not increasing and linear in the strain amplitude: {short(g)} > 0")
+                continue
+            tx = _A.norm((_A.atom("x") - g0) / c)
+            sub = lambda d: _A.norm(simplify(_A.subst(d.a, "t", tx)))
+            rl, ru = sub(fl), sub(fu)
+            sl_, su_ = rat_sign(rl, I.positive), rat_sign(ru, I.positive)
+            wit_l = wit_u = ""
+            if sl_ is None:
+                w = _sign_witness(rl, want_positive=False)
+                if w:
+                    sl_, wit_l = 1, w
+            if su_ is None:
+                w = _sign_witness(ru, want_positive=True)
+                if w:
+                    su_, wit_u = -1, w
+            ctx.decide(rule, (sl_ == -1) if sl_ is not None else None, h.fscope, None, construct=f"residual-negative-at-lower-end[{tag}]",
+                       detail=f"residual(lower) = {short(rl)} < 0 while yielding (x = excess of the yield test > 0)",
+                       bad_detail=f"residual at the lower bracket end is {short(rl)} (x = excess of the yield test > 0): not negative{wit_l}, the bracket [old eqps, .] does not enclose the root from below")
+            ctx.decide(rule, (su_ == 1) if su_ is not None else None, h.fscope, None, construct=f"residual-positive-at-upper-end[{tag}]",
+                       detail=f"residual(upper) = {short(ru)} > 0",
+                       bad_detail=f"residual at the upper bracket end is {short(ru)} for {hcase}, {scase} (x = excess of the yield test > 0): not strictly positive{wit_u}, so the "
+                                  f"sign test of the root finder (NaN unless f(lo)*f(hi) < 0) is decided by round-off and the update returns NaN")
+            # the yield test is the residual at the old state up to a positive scale and a non-negative tolerance:
+            #   g = a * (-residual(old eqps)) - b   with a > 0 and b >= 0 independent of the strain
+            ok_form, shown = yield_test_offset(g, fl, I.positive)
+            ctx.decide(rule, ok_form, h.fscope, None, construct=f"yield-test-is-residual-at-old-state[{tag}]",
+                       detail=f"yield test = a * (-residual(old eqps)) - b with {shown}: yielding implies a negative residual at the lower end, and only a tolerance-sized overshoot stays elastic",
+                       bad_detail=f"yield test = a * (-residual(old eqps)) - b with {shown}: the yield test is not (trial Mises stress - flow stress) > tolerance with a non-negative "
+                                  f"tolerance; a step can be declared yielding while the residual at the old state is already non-negative")
+        except INTERP_ERRORS as ex:
+            ctx.undecided(rule, h.fscope, None, construct=f"bracket-signs[{tag}]", detail=str(ex)[:300])
     ctx.assume("the plastic residual depends on the trial strain only through its deviator (isotropy): bracket signs are decided on two deviatoric directions")
 
 
-def d3_wiring(ctx):
-    rule = "D3/T5-variational-wiring"
-    mod = ctx.need_module(J2)
-    ip = ctx.need(f"{J2}:incremental_potential")
-    bs = mod.scope.bindings.get("r")
-    ok = False
-    detail = "residual binding `r` not found"
-    argn = None
-    if bs:
-        v = bs[-1].value
-        if isinstance(v, ast.Call) and (dotted(v.func) or "").split(".")[-1] in ("jacfwd", "grad", "jacrev") and len(v.args) >= 1:
-            tgt = ctx.repo.resolve(v.args[0], mod.scope)
-            is_ip = any(isinstance(t, FuncVal) and t.scope is ip for t in tgt)
-            argn = const_value(v.args[1]) if len(v.args) > 1 else 0
-            pos = ip.params().index("eqps") if "eqps" in ip.params() else None
-            ok = is_ip and pos is not None and argn == pos
-            detail = f"r = d(incremental_potential)/d(argument {argn}); eqps is parameter {pos}"
-    ctx.decide(rule, ok, mod.scope, bs[-1].node if bs else None, construct="residual-is-derivative-wrt-eqps", detail=detail,
-               bad_detail=f"{detail}: the stationarity condition is taken with respect to the wrong variable")
-    us = ctx.need(f"{J2}:update_state")
-    lam_ok = False
-    shown = "?"
-    from .common import defs_to_lambdas
-    for c in calls_in(us):
-        if (dotted(c.func) or "").endswith("find_root") and c.args:
-            lam = defs_to_lambdas(c.args[0], us)
-            if not isinstance(lam, ast.Lambda):
-                continue
-            shown = src(lam)
-            v = lam.args.args[0].arg
-            body = lam.body
-            if isinstance(body, ast.Call) and isinstance(body.func, ast.Name) and body.func.id == "r" and argn is not None:
-                args = [a.id if isinstance(a, ast.Name) else None for a in body.args]
-                want = list(ip.params())
-                # slot `argn` varies, the others are passed in the order of incremental_potential's parameters
-                roles = {"elasticTrialStrain": us.params()[0], "eqpsOld": None, "dt": us.params()[2], "props": us.params()[3], "hardening_model": us.params()[4]}
-                lam_ok = len(args) == len(want) and args[argn] == v and args.count(v) == 1 and args[0] == us.params()[0] \
-                    and args[3:] == us.params()[2:5]
-                # eqpsOld slot must be the old state's eqps
-                from .common import expand
-                cfg = cfg_of(us)
-                node = [n for n in cfg.nodes if n.ast is not None and any(x is c for x in ast.walk(n.ast))][0]
-                old = expand(cfg, node, body.args[2])
-                lam_ok = lam_ok and same(old, f"{us.params()[1]}[EQPS]")
-    ctx.decide(rule, lam_ok, us, None, construct="root-finding-lambda-varies-eqps", detail=shown,
-               bad_detail=f"root-finding function `{shown}` does not vary exactly the eqps slot of the residual with (trial strain, old eqps, dt, props, hardening) in the other slots")
-    # the energy closure and the incremental potential share flow direction and hardening slots
-    ed = ctx.need(f"{J2}:_energy_density")
-    from .common import return_normal_form, sem_same
-    e_ = ed.params()     # elStrain, state, dt, props, hardening_model
-    inc_ = f"compute_state_increment({e_[0]}, {e_[1]}, {e_[2]}, {e_[3]}, {e_[4]})"
-    want_w = (f"elastic_free_energy({e_[0]} - {inc_}[PLASTIC_DISTORTION].reshape((3, 3)), {e_[3]}) + "
-              f"{e_[4]}[ENERGY_DENSITY]({e_[1]}[EQPS] + {inc_}[EQPS], {e_[1]}[EQPS], {e_[2]})")
-    nf_ = return_normal_form(ed)
-    ok = nf_ is not None and sem_same(nf_, want_w, ed)
-    ctx.decide(rule, ok, ed, None, construct="energy-evaluated-at-updated-state", detail="W = elastic_free_energy(trial - d_plastic) + hardening(eqps_new, eqps_old, dt)",
-               bad_detail="_energy_density does not evaluate the elastic energy at the updated elastic strain plus the hardening potential at (eqps_new, eqps_old, dt)")
+# ------------------------------------------------------------------ D3
 
-
-def d3_dispatch(ctx):
-    rule = "D3/T14-kinematics-dispatch"
-    mod = ctx.need_module(J2)
-    fac = ctx.need(f"{J2}:create_material_model_functions")
-    values, optional, presence = mt.option_space(ctx, [J2])
-    kin = sorted(values.get("kinematics", []))
-    if len(kin) < 3:
-        raise Incomplete(f"kinematics options found: {kin}")
-    for k in kin + [None]:
-        I = mt.make_interp(ctx.repo)
-        sc = {"hardening model": "linear"}
-        if k:
-            sc["kinematics"] = k
-        props = mt.PropDict(I, sc, {"kinematics", "hardening model", "rate sensitivity"})
-        try:
-            model = I.call(I.module_value(mod, "create_material_model_functions"), [props], {})
-            e_cl = model.get("compute_energy_density")
-            s_cl = model.get("compute_state_new")
-            def _free_callee(cl, nargs_prefix):
-                """the captured function variable that the closure calls with its own leading parameters"""
-                ps_ = cl.scope.params()
-                for c_ in calls_in(cl.scope):
-                    if isinstance(c_.func, ast.Name) and len(c_.args) >= nargs_prefix and all(isinstance(a_, ast.Name) and a_.id == ps_[i_]
-                                                                                              for i_, a_ in enumerate(c_.args[:nargs_prefix])):
-                        try:
-                            v_ = cl.env.lookup(c_.func.id)
-                        except Exception:
-                            continue
-                        if isinstance(v_, Closure) and c_.func.id not in cl.scope.module.scope.bindings:
-                            return v_
-                raise KeyError("captured callee not found")
-            strain_fn = _free_callee(e_cl, 2)
-            upd_fn = _free_callee(s_cl, 3)
-            init_fn = model.get("compute_initial_state")
-        except (EvalError, Raised, KeyError, AttributeError) as ex:
-            ctx.undecided(rule, fac, None, construct=f"kinematics={k}", detail=str(ex))
+def stationarity_case(h, kin, fam, hcase, rate):
+    """(number of yielding paths, defects) for one strain family / hardening case: the eps-part of the energy density with the root
+    finder returning rho + eps must be a positive multiple of the recorded residual at rho."""
+    dt = atom("dt")
+    root = atom(Harness.ROOT)
+    sc = h.scenario(kin, perfect=(hcase == "H=0"), rate=rate)
+    state = h.make_state(kin, atom("s0"), zeros3())
+    E = family_matrix(fam)
+    paths = h.paths(sc, "compute_energy_density", [E, state, dt], root=Dual(root.a, ONE))
+    n_y, bad = 0, []
+    for p in paths:
+        if p.error is not None:
+            raise EvalError(str(p.error))
+        if not p.value.solves:
             continue
-        called = set()
-        for c in calls_in(upd_fn.scope):
-            for v in ctx.repo.resolve(c.func, upd_fn.scope):
-                if isinstance(v, FuncVal):
-                    called.add(v.scope.qualname)
-        ok = strain_fn.scope.qualname in called
-        finite = "finite" in upd_fn.scope.name
-        ok_init = ("finite" in init_fn.scope.name) == finite
-        ctx.decide(rule, ok and ok_init, fac, None, construct=f"kinematics={k or 'default'}",
-                   detail=f"energy uses {strain_fn.scope.name}; update {upd_fn.scope.name} uses the same; initial state {init_fn.scope.name}",
-                   bad_detail=f"for kinematics={k or 'default'} the energy uses {strain_fn.scope.name} but the state update {upd_fn.scope.name} "
-                              f"calls {sorted(x.split(':')[-1] for x in called if 'strain' in x)}; initial state {init_fn.scope.name}")
+        n_y += 1
+        W = p.value.interp.num(p.value.value)
+        dW = _A.norm(simplify(W.b))
+        for sol in p.value.solves:
+            f = _A.norm(simplify(h.residual(p.value, sol, root).a))
+            if rat_is_zero(f):
+                bad.append(f"path {p.label()}: the residual handed to the root finder vanishes identically")
+                continue
+            ratio = _A.norm(simplify(dW / f))
+            sg = rat_sign(ratio, p.value.interp.positive)
+            if sg == 1:
+                continue
+            if Harness.ROOT not in ratio.atoms() and sg is None:
+                raise EvalError(f"sign of dW/d(eqps) / residual = {short(ratio)} not decided")
+            bad.append(f"path {p.label()}: d(energy)/d(eqps) at the updated state is {short(dW)}, the residual handed to the root finder is {short(f)} "
+                       f"(ratio {short(ratio, 80)} is not a positive factor)")
+    if not n_y:
+        raise EvalError("no path of the energy closure makes a scalar solve")
+    return n_y, bad
+
+
+def d3_wiring(ctx, h):
+    """Stationarity: with the root finder returning rho + eps, the eps-part of the model's energy density is dW/d(rho) at the updated state;
+    it must vanish exactly where the recorded residual does: dW/d(rho) = k * residual(rho) with k > 0."""
+    rule = d3_wiring.RULE
+    kin = _poly_additive_option(h)
+    dt = atom("dt")
+    root = atom(Harness.ROOT)
+    cases = [(f, hc, False) for f in FAMILIES for hc in ("H>0", "H=0")]
+    if "rate sensitivity" in h.presence | h.optional:
+        cases += [(f, "H>0", True) for f in FAMILIES]
+    for fam, hcase, rate in cases:
+        tag = f"{fam},{hcase}" + (",rate-sensitive" if rate else "")
+        cons = f"residual-is-derivative-of-the-energy-wrt-eqps[{tag}]"
+        try:
+            n_y, bad = stationarity_case(h, kin, fam, hcase, rate)
+            ctx.decide(rule, not bad, h.fscope, None, construct=cons, detail=f"d(energy density)/d(eqps) at the updated state = k * residual(eqps), k > 0, on {n_y} yielding path(s)",
+                       bad_detail="the root of the function handed to the root finder is not a stationary point of the energy density the model exposes "
+                                  "(derivative taken w.r.t. the wrong variable, wrong slot varied, or energy evaluated at another state): " + "; ".join(bad[:2]))
+        except INTERP_ERRORS as ex:
+            ctx.undecided(rule, h.fscope, None, construct=cons, detail=str(ex)[:300])
+    # energy evaluated at the updated state == energy of the committed state (additive options; the multiplicative one is in the layout rule)
+    for kin in h.kinematics():
+        try:
+            if _update_kind(h, kin) != "additive":
+                continue
+        except INTERP_ERRORS:
+            continue            # (reported by the layout rule)
+        _commit_invariance(ctx, h, kin, rule, f"kinematics={_kname(kin)}:energy-evaluated-at-updated-state")
+
+
+d3_wiring.RULE = "D3/T5-variational-wiring"
+
+
+def d3_dispatch(ctx, h):
+    """For each kinematics option the energy closure and the state update must solve the same scalar equation (same residual function,
+    same bracket) on generic data: they use the same trial elastic strain, material constants and old state."""
+    rule = d3_dispatch.RULE
+    dt = atom("dt")
+    probe = atom("@e")
+    kins = h.kinematics()
+    if len(kins) < 3:
+        raise Incomplete(f"kinematics options found: {kins}")
+    for kin in kins:
+        cons = f"kinematics={_kname(kin)}"
+        try:
+            sc = h.scenario(kin)
+            kind = _update_kind(h, kin)
+            _, T0 = h.split_state(kin, h.initial_state(sc))
+            T_old = generic_sym("p") if kind == "additive" else T0
+            state = h.make_state(kin, atom("s0"), T_old)
+            sigs, visited = {}, {}
+            for name in ("compute_energy_density", "compute_state_new"):
+                got = []
+                vis = set()
+                for p in h.paths(sc, name, [generic("h"), state, dt]):
+                    if p.error is not None:
+                        raise EvalError(f"{name}: {p.error}")
+                    vis |= p.value.interp.visited
+                    for sol in p.value.solves:
+                        sig = (h.residual(p.value, sol, probe), sol.lo, sol.hi)
+                        if not any(all(d_equal(x, y) for x, y in zip(sig, g_)) for g_ in got):
+                            got.append(sig)
+                sigs[name], visited[name] = got, vis
+            a, b = sigs["compute_energy_density"], sigs["compute_state_new"]
+            if not a or not b:
+                raise EvalError(f"scalar solves observed: energy {len(a)}, state update {len(b)}")
+            has = lambda sig, lst: any(all(d_equal(x, y) for x, y in zip(sig, g_)) for g_ in lst)
+            a_only = [s_ for s_ in a if not has(s_, b)]
+            b_only = [s_ for s_ in b if not has(s_, a)]
+            if (a_only or b_only) and (len(a_only) < len(a) or len(b_only) < len(b)):
+                # some equations coincide, some do not: the two closures take different sets of paths -- not a contradiction by itself
+                raise EvalError(f"{len(a_only)} of {len(a)} equations of the energy and {len(b_only)} of {len(b)} of the update have no counterpart")
+            only_e = sorted(q.split(":")[-1] for q in visited["compute_energy_density"] - visited["compute_state_new"] if "strain" in q.lower())
+            only_u = sorted(q.split(":")[-1] for q in visited["compute_state_new"] - visited["compute_energy_density"] if "strain" in q.lower())
+            ctx.decide(rule, not a_only and not b_only, h.fscope, None, construct=cons,
+                       detail=f"{kind} update: energy closure and state update solve the same {len(a)} scalar equation(s) (residual and bracket identical on generic data)",
+                       bad_detail=f"for {cons} the energy closure and the state update solve different plastic equations on the same data (different trial elastic strain "
+                                  f"or constants): only the energy goes through {only_e or '-'}, only the state update through {only_u or '-'}; "
+                                  f"none of the {len(a)} equation(s) of the energy has a counterpart in the update")
+        except INTERP_ERRORS as ex:
+            ctx.undecided(rule, h.fscope, None, construct=cons, detail=str(ex)[:300])
+
+
+d3_dispatch.RULE = "D3/T14-kinematics-dispatch"
+def _chain(*edits):
+    """Apply several textual edits in sequence (a variant is inapplicable when one of them is)."""
+    def f(src):
+        for e in edits:
+            src = e(src)
+            if src is None:
+                return None
+        return src
+    return f
 
 
 def variants(repo):
+    from optilint.selftest import Variant, sub, sub_in_func, alpha_rename, reformat
+    J = "optimism/material/J2Plastic.py"
+    Hd = "optimism/material/Hardening.py"
+    # --- bolder preserving restructurings (written for this rule set; none of their names is known to the rules)
+    own_a = _chain(
+        sub("""    # parse kinematics
+    finiteDeformations = True
+    sethHill = False
+    if 'kinematics' in properties:
+        if properties['kinematics'] == 'large deformations':
+            finiteDeformations = True
+        elif properties['kinematics'] == 'small deformations':
+            finiteDeformations = False
+        elif properties['kinematics'] == 'seth hill':
+            finiteDeformations = False
+            sethHill = True
+        else:
+            raise ValueError('Unknown value specified for kinematics in J2Plastic')
+        
+    if finiteDeformations:
+        compute_elastic_strain = compute_elastic_logarithmic_strain
+    else:
+        if sethHill:
+            compute_elastic_strain = compute_elastic_seth_hill_strain
+        else:
+            compute_elastic_strain = compute_elastic_linear_strain
+        
+""", """    kinematics = properties.get('kinematics', 'large deformations')
+    try:
+        compute_elastic_strain, multiplicative = _KINEMATICS[kinematics]
+    except KeyError:
+        raise ValueError('Unknown value specified for kinematics in J2Plastic')
+
+"""),
+        sub("""    if finiteDeformations:
+        compute_state_new_func = compute_state_new_finite_deformations
+        compute_initial_state = make_initial_state_finite_deformations
+    else:
+        if sethHill:
+            compute_state_new_func = compute_state_new_seth_hill
+            compute_initial_state = make_initial_state_small_deformations
+        else:
+            compute_state_new_func = compute_state_new_small_deformations
+            compute_initial_state = make_initial_state_small_deformations
+        
+    def compute_state_new_function(dispGrad, state, dt):
+        return compute_state_new_func(dispGrad, state, dt, props, hardeningModel)
+""", """    compute_initial_state = make_initial_state_finite_deformations if multiplicative else make_initial_state_small_deformations
+
+    def compute_state_new_function(dispGrad, state, dt):
+        return _advance_state(compute_elastic_strain, multiplicative, dispGrad, state, dt, props, hardeningModel)
+"""),
+        sub("""def compute_state_new_small_deformations(dispGrad, stateOld, dt, props, hardening_model):""",
+            """def _advance_state(strain_measure, multiplicative, dispGrad, stateOld, dt, props, hardening_model):
+    trial = strain_measure(dispGrad, stateOld)
+    increment = compute_state_increment(trial, stateOld, dt, props, hardening_model)
+    if not multiplicative:
+        return stateOld + increment
+    distortion = stateOld[PLASTIC_DISTORTION].reshape((3, 3))
+    flow = TensorMath.exp_symm(np.reshape(increment[PLASTIC_DISTORTION], (3, 3)))
+    return np.hstack((stateOld[EQPS] + increment[EQPS], (flow @ distortion).ravel()))
+
+
+def compute_state_new_small_deformations(dispGrad, stateOld, dt, props, hardening_model):"""),
+        sub("""    isYielding = trialStress - flowStress > _TOLERANCE*props[PROPS_Y0]
+
+    stateInc = jax.lax.cond(isYielding,
+                            lambda e: update_state(e, state, dt, props, hardening_model),
+                            lambda e: np.zeros(NUM_STATE_VARS),
+                            elasticStrain)
+
+    return stateInc
+""", """    threshold = flowStress + _TOLERANCE*props[PROPS_Y0]
+    isElastic = trialStress <= threshold
+
+    def plastic_step(e):
+        return update_state(e, state, dt, props, hardening_model)
+
+    return jax.lax.cond(isElastic, lambda e: np.zeros_like(state), plastic_step, elasticStrain)
+"""),
+        sub("""    eqps, _ = ScalarRootFind.find_root(lambda e: r(elasticTrialStrain, e, eqpsOld, dt, props, hardening_model),
+                                       eqpsGuess,
+                                       np.array([lb, ub]),
+                                       settings)
+    DeltaEqps = eqps - eqpsOld
+    DeltaPlasticStrain = DeltaEqps*N
+    return np.hstack( (DeltaEqps, DeltaPlasticStrain.ravel()) )
+""", """    def residual(e):
+        return r(elasticTrialStrain, e, eqpsOld, dt, props, hardening_model)
+
+    solution = ScalarRootFind.find_root(residual, bracket=np.array([lb, ub]), settings=settings, x0=eqpsGuess)
+    multiplier = solution[0] - eqpsOld
+    return np.hstack((multiplier, (multiplier*N).ravel()))
+"""),
+        sub("r = jax.jacfwd(incremental_potential, 1)", "r = jax.grad(incremental_potential, argnums=1)"),
+        lambda src: src + """
+
+
+_KINEMATICS = {
+    # name: (elastic strain measure, multiplicative update of the plastic distortion)
+    'large deformations': (compute_elastic_logarithmic_strain, True),
+    'small deformations': (compute_elastic_linear_strain, False),
+    'seth hill': (compute_elastic_seth_hill_strain, False),
+}
+""")
+    own_b_j2 = _chain(
+        sub("""    def energy_density_function(dispGrad, state, dt):
+        elasticTrialStrain = compute_elastic_strain(dispGrad, state)
+        return _energy_density(elasticTrialStrain, state, dt, props, hardeningModel)
+""", """    energy_density_function = lambda dispGrad, state, dt: _energy_density(compute_elastic_strain(dispGrad, state),
+                                                                         state, dt, props, hardeningModel)
+"""),
+        sub("""    stateInc = compute_state_increment(elStrain, state, dt, props, hardening_model)
+    
+    eqpsNew = state[EQPS] + stateInc[EQPS]
+    elasticStrainNew = elStrain - stateInc[PLASTIC_DISTORTION].reshape((3,3))
+        
+    W = elastic_free_energy(elasticStrainNew, props) + hardening_model[ENERGY_DENSITY](eqpsNew, state[EQPS], dt)
+    
+    return W
+""", """    eqpsOld = state[EQPS]
+    stateNew = state + compute_state_increment(elStrain, state, dt, props, hardening_model)
+    plasticFlow = (stateNew - state)[PLASTIC_DISTORTION].reshape((3,3))
+    stored = hardening_model.compute_hardening_energy_density(stateNew[EQPS], eqpsOld, dt)
+    return stored + elastic_free_energy(elStrain - plasticFlow, props)
+"""),
+        sub("""def make_initial_state_finite_deformations(shape=(1,)):
+    eqps = 0.0
+    Fp = np.identity(3)
+    return np.hstack((eqps, Fp.ravel()))
+""", """def make_initial_state_finite_deformations(shape=(1,)):
+    state = np.zeros(NUM_STATE_VARS)
+    return state.at[PLASTIC_DISTORTION].set(np.identity(3).ravel())
+"""),
+        sub("    flowStress = hardening_model[FLOW_STRESS](eqps, eqps, dt)\n", "    flowStress = hardening_model.compute_flow_stress(eqps, eqps, dt)\n"),
+        sub("""    return np.where(isNonzero,
+                    np.sqrt(3./2.)/np.sqrt(devElasticStrainNormSquared) * devElasticStrain,
+                    dummyN)
+""", """    scale = np.sqrt(1.5/devElasticStrainNormSquared)
+    return jax.lax.cond(isNonzero, lambda: scale*devElasticStrain, lambda: dummyN)
+"""))
+
+    def own_b_hardening(src):
+        a, b = src.find("def create_hardening_model(properties):"), src.find("def linear(eqps, Y0, H):")
+        if a < 0 or b < 0 or "    return HardeningModel(hardening, jax.grad(hardening))" not in src[a:b]:
+            return None
+        return src[:a] + """def create_hardening_model(properties):
+    kinetic_potential_density = _make_kinetic_potential(properties)
+    free_energy_density = _make_free_energy(properties)
+    hardening = lambda eqps, eqpsOld, dt: free_energy_density(eqps) + kinetic_potential_density(eqps, eqpsOld, dt)
+    return HardeningModel(compute_flow_stress=jax.grad(hardening, argnums=0),
+                          compute_hardening_energy_density=hardening)
+
+
+def _make_kinetic_potential(properties):
+    if 'rate sensitivity' not in properties:
+        return lambda e, eo, dt: 0
+    S, m, epsDot0 = (properties[key] for key in ('rate sensitivity stress',
+                                                 'rate sensitivity exponent',
+                                                 'reference plastic strain rate'))
+    return lambda eqps, eqpsOld, dt: power_law_rate_sensitivity(eqps, eqpsOld, dt, S, m, epsDot0)
+
+
+def _make_free_energy(properties):
+    model = properties['hardening model']
+    if model == 'linear':
+        Y0 = properties['yield strength']
+        H = properties['hardening modulus']
+        return lambda eqps: linear(eqps, Y0, H)
+    if model == 'voce':
+        Y0 = properties['yield strength']
+        Ysat = properties['saturation strength']
+        eps0 = properties['reference plastic strain']
+        return lambda eqps: voce(eqps, Y0, Ysat, eps0)
+    if model != 'power law':
+        raise ValueError('Unknown hardening model specified')
+    Y0 = properties['yield strength']
+    n = properties['hardening exponent']
+    eps0 = properties['reference plastic strain']
+    return lambda eqps: power_law(eqps, Y0, n, eps0)
+
+
+""" + src[b:]
+    own_c = _chain(
+        sub("""    devElasticStrainNormSquared = np.tensordot(devElasticStrain, devElasticStrain)
+    isNonzero = devElasticStrainNormSquared > 1e-16
+""", """    devElasticStrainNormSquared = np.einsum('ij,ij', devElasticStrain, devElasticStrain)
+    isNonzero = np.sqrt(devElasticStrainNormSquared) > 1e-8
+"""),
+        sub_in_func("compute_state_increment", "np.tensordot(TensorMath.dev(elasticStrain), N)", "np.vdot(TensorMath.dev(elasticStrain), N)"),
+        sub_in_func("compute_state_increment", "                            elasticStrain)", "                            operand=elasticStrain)"),
+        sub("    return np.hstack( (DeltaEqps, DeltaPlasticStrain.ravel()) )", "    return np.concatenate((np.atleast_1d(DeltaEqps), np.ravel(DeltaPlasticStrain)))"),
+        sub_in_func("compute_state_new_small_deformations", "    return stateOld + stateInc", "    return np.add(stateOld, stateInc)"))
+    extra = [
+        Variant("own restructuring C: norm-based degeneracy test, einsum / vdot contractions, operand keyword, concatenate", J, own_c, None),
+        Variant("own restructuring C with the degeneracy test at |dev E| > 1e-4", J, _chain(own_c, sub("np.sqrt(devElasticStrainNormSquared) > 1e-8", "np.sqrt(devElasticStrainNormSquared) > 1e-4")),
+                "D1/T7-degenerate-direction-unreachable-while-yielding"),
+        Variant("own restructuring A: table dispatch, one generic state update, keyword solve, swapped cond", J, own_a, None),
+        Variant("own restructuring B: energy from state difference, .at[].set virgin state, cond flow direction", J, own_b_j2, None),
+        Variant("own restructuring B: hardening factories with early returns and keyword record", Hd, own_b_hardening, None),
+        # --- subtle breaking edits
+        Variant("exp of twice the increment", J, sub_in_func("compute_state_new_finite_deformations", "TensorMath.exp_symm(stateInc[PLASTIC_DISTORTION].reshape((3,3)))@FpOld", "TensorMath.exp_symm(2.0*stateInc[PLASTIC_DISTORTION].reshape((3,3)))@FpOld"), "D1/T5-state-layout"),
+        Variant("exp of minus the increment", J, sub_in_func("compute_state_new_finite_deformations", "TensorMath.exp_symm(stateInc[PLASTIC_DISTORTION].reshape((3,3)))@FpOld", "TensorMath.exp_symm(-stateInc[PLASTIC_DISTORTION].reshape((3,3)))@FpOld"), "D1/T5-state-layout"),
+        Variant("hardening potential at (new, new)", J, sub_in_func("_energy_density", "hardening_model[ENERGY_DENSITY](eqpsNew, state[EQPS], dt)", "hardening_model[ENERGY_DENSITY](eqpsNew, eqpsNew, dt)"), "D3/T5-variational-wiring"),
+        Variant("plastic strain added in the energy", J, sub_in_func("_energy_density", "elasticStrainNew = elStrain - stateInc[PLASTIC_DISTORTION]", "elasticStrainNew = elStrain + stateInc[PLASTIC_DISTORTION]"), "D3/T5-variational-wiring"),
+        Variant("yield test against the initial yield strength", J, sub_in_func("compute_state_increment", "isYielding = trialStress - flowStress > _TOLERANCE*props[PROPS_Y0]", "isYielding = trialStress - props[PROPS_Y0] > _TOLERANCE*props[PROPS_Y0]"), "D2/T2-bracket-roles"),
+        Variant("seth-hill with the finite-deformation virgin state", J, sub("            compute_state_new_func = compute_state_new_seth_hill\n            compute_initial_state = make_initial_state_small_deformations", "            compute_state_new_func = compute_state_new_seth_hill\n            compute_initial_state = make_initial_state_finite_deformations"), "D1/T5-state-layout"),
+        Variant("small-strain update doubles the increment", J, sub_in_func("compute_state_new_small_deformations", "    return stateOld + stateInc", "    return stateOld + 2.0*stateInc"), "D2/T2-bracket-roles"),
+        Variant("finite update forgets the old eqps", J, sub_in_func("compute_state_new_finite_deformations", "    eqpsNew = stateOld[EQPS] + stateInc[EQPS]", "    eqpsNew = stateInc[EQPS]"), "D2/T2-bracket-roles"),
+        Variant("linear strain with the plastic strain added", J, sub_in_func("compute_elastic_linear_strain", "    return strain - plasticStrain", "    return strain + plasticStrain"), "D3/T5-variational-wiring"),
+        Variant("energy of the small-strain option uses the seth-hill strain", J, sub("            compute_elastic_strain = compute_elastic_linear_strain", "            compute_elastic_strain = compute_elastic_seth_hill_strain"), "D3/T14-kinematics-dispatch"),
+    ]
+    return extra + _base_variants()
+
+
+def _base_variants():
+
     from optilint.selftest import Variant, sub, sub_in_func, alpha_rename, reformat
     J = "optimism/material/J2Plastic.py"
     return [
